@@ -194,11 +194,18 @@ fn lookup_case(ctx: &mut Ctx, z: u8, x: u64, y: u64) {
                 for id in &ids2 {
                     pm.add_tile(*id, id.to_le_bytes().to_vec()).expect("add");
                 }
+                if !in_grid && z <= 31 {
+                    // the in-grid tile these coordinates would alias onto is looked up first, on the same archive
+                    let _ = block_on(pm.get_tile_async(ax, ay, za));
+                }
                 block_on(pm.get_tile_async(x, y, z))
             } else {
                 let mut pm = PMTiles::new(TileType::Png, Compression::None);
                 for id in &ids2 {
                     pm.add_tile(*id, id.to_le_bytes().to_vec()).expect("add");
+                }
+                if !in_grid && z <= 31 {
+                    let _ = pm.get_tile(ax, ay, za);
                 }
                 pm.get_tile(x, y, z)
             }
@@ -325,6 +332,10 @@ pub fn run(ctx: &mut Ctx) {
         }
         for z in 1..=31u8 {
             ids.extend([R::zoom_base(z) + 1, R::zoom_base(32 - z), R::zoom_base(z) - 1, R::zoom_base(z), 0]);
+        }
+        // rejected ids directly followed by ids of the highest zooms (an error path must leave nothing behind)
+        for z in [31u8, 30, 29, 1] {
+            ids.extend([u64::MAX, R::zoom_base(z) + 5, R::zoom_base(32), R::zoom_base(z), R::zoom_base(32) + 7, R::zoom_base(z + 1) - 1]);
         }
         for p in 0..64u32 {
             let v = 1u64 << p;
